@@ -141,8 +141,9 @@ class _Spies:
             e.fit = fit
             return e
 
-        def acq_spy(X, model, y_opt=None, acq_func="LCB", return_grad=False, acq_func_kwargs=None):
-            v = self._acq(X, model, y_opt=y_opt, acq_func=acq_func, return_grad=return_grad, acq_func_kwargs=acq_func_kwargs)
+        def acq_spy(X, model, y_opt=None, acq_func="LCB", return_grad=False, acq_func_kwargs=None, **extra):
+            # **extra: pass through whatever further keywords the code's own signature has (e.g. random_state)
+            v = self._acq(X, model, y_opt=y_opt, acq_func=acq_func, return_grad=return_grad, acq_func_kwargs=acq_func_kwargs, **extra)
             if acq_func.endswith("d") and acq_func != "gp_hedged":
                 mu, _, sd = model.predict(X, return_std=True, disentangled_std=True)
             else:
